@@ -147,6 +147,8 @@ def generate(rng, tier, index):
         return None
     spec, roles, g = r
     call = gen_mtl_call(rng, spec, roles, dtype)
+    if rng.random() < 0.12:
+        call["agg_hook"] = rng.choice([-2.0, 0.5, 3.0])  # a forward hook registered on the user's aggregator
     alt_call = copy.deepcopy(call)
     if alt_call["tasks"] is not None:
         for tp in alt_call["tasks"]:
